@@ -9,13 +9,15 @@ import json
 from . import core
 
 
-def model_to_code(r, module, cfg_text, component, tag, workers=None, timeout=1500, count=True, extra_kw=None, must_export=True):
+def model_to_code(r, module, cfg_text, component, tag, workers=None, timeout=1500, count=True, extra_kw=None, must_export=True, sort_key=None):
     g = r.tlc(module, cfg_text=cfg_text, workers=workers or core.NCPU, timeout=timeout, count=count)
     if not g.ok:
         raise core.Inconclusive("%s exploration failed: %r\n%s" % (module, g, core.tail(g.out_path, 30)))
     if must_export and not g.prints:
         raise core.Inconclusive("%s exported no case" % module)
     exp = r.path("cases-%s.ndjson" % tag)
+    if sort_key:
+        g.prints.sort(key=sort_key)
     core.write_ndjson(exp, g.prints)
     rep = r.path("replay-%s.json" % tag)
     kw = {"in": exp, "out": rep}
